@@ -33,7 +33,7 @@ def run(ctx):
         s["ends"] = gaps
     p = vh(["c14-cose"], stdin="\n".join(json.dumps(s) for s in shapes))
     recs = [json.loads(l) for l in p.stdout.splitlines() if l.strip()]
-    dgaps = windows(ctx.quick, far=False) if ctx.quick else windows(True, far=False) + [65530, 65535, 65536, 65540]
+    dgaps = windows(ctx.quick, far=True)
     dshapes = [{"excl": 1, "name_len": 8, "ends": dgaps}, {"excl": 10, "name_len": 12, "ends": dgaps[:80]}]
     p = vh(["c14-datahash"], stdin="\n".join(json.dumps(s) for s in dshapes), timeout=3000)
     recs += [json.loads(l) for l in p.stdout.splitlines() if l.strip()]
